@@ -272,14 +272,16 @@ class State(object):
 
 
 class Frame(object):
-    __slots__ = ("body", "locs", "cfg", "depth", "active")
+    __slots__ = ("body", "locs", "cfg", "depth", "active", "progress", "nest")
 
     def __init__(self, body, locs, cfg, depth):
         self.body = body
         self.locs = locs
         self.cfg = cfg
         self.depth = depth
-        self.active = set()
+        self.active = {}  # symbolic switch block -> constant-progress counter when it was entered
+        self.nest = {}
+        self.progress = 0  # number of switches decided by constants so far (loop tests of constant-trip loops)
 
 
 class AssertRec(object):
@@ -557,7 +559,10 @@ class Evaluator(object):
         if "ptr" in c:
             info = c["ptr"]
             if "bytes" in info:
-                v = self.decode_bytes(bytes.fromhex(info["bytes"]), t["to"])
+                try:
+                    v = self.decode_bytes(bytes.fromhex(info["bytes"]), t["to"])
+                except Unsupported:
+                    return Ref(st.alloc(OpaqueV(t["to"], "const:" + info["bytes"][:16]), "const"), ())
                 oid = st.alloc(v, "const")
                 pt = self.tys[t["to"]]
                 if pt["k"] in ("slice", "str"):
@@ -913,6 +918,7 @@ class Evaluator(object):
                 arms = [(int(x), tb) for x, tb in t[2]]
                 other = t[3]
                 if v.op == "const":
+                    fr.progress += 1
                     bb = other
                     for x, tb in arms:
                         if x == v.aux:
@@ -925,10 +931,13 @@ class Evaluator(object):
                     bb = dec
                     continue
                 # symbolic branch: fork and merge at the immediate post-dominator
-                if bb in fr.active:
+                prev = fr.active.get(bb)
+                if prev is not None and (prev == fr.progress or fr.nest.get(bb, 0) > 4200):
+                    # re-entered without passing a constant-decided loop test: a loop with a symbolic exit
                     raise SymbolicLoop(body["key"], bb, v)
                 join = fr.cfg.ipdom.get(bb)
-                fr.active.add(bb)
+                fr.active[bb] = fr.progress
+                fr.nest[bb] = fr.nest.get(bb, 0) + 1
                 try:
                     outs = []
                     conds = []
@@ -948,7 +957,11 @@ class Evaluator(object):
                         s3, how = self.run(s2, fr, other, join)
                         outs.append((cother, s3, how))
                 finally:
-                    fr.active.discard(bb)
+                    fr.nest[bb] -= 1
+                    if prev is None:
+                        fr.active.pop(bb, None)
+                    else:
+                        fr.active[bb] = prev
                 live = [(c, s, h) for c, s, h in outs if h != "dead"]
                 if not live:
                     return st, "dead"
